@@ -1026,10 +1026,13 @@ void ICACHE_FLASH_ATTR supla_esp_mqtt_prepare_val(char buffer[25],
     minus = 1;
   }
 
-  unsigned _supla_int64_t v = value;
+  // digits are taken from the unsigned magnitude: an unsigned value above
+  // INT64_MAX is negative when read through the signed parameter
+  unsigned _supla_int64_t uvalue = value;
+  unsigned _supla_int64_t v = uvalue;
   while (v != 0) {
     if (!m && precision && v % 10 == 0) {
-      value /= 10;
+      uvalue /= 10;
       precision--;
     } else {
       m = 1;
@@ -1043,7 +1046,7 @@ void ICACHE_FLASH_ATTR supla_esp_mqtt_prepare_val(char buffer[25],
     offset++;
   }
 
-  if (value == 0) {
+  if (uvalue == 0) {
     precision = 0;
     n++;
   } else if (precision > 0) {
@@ -1069,8 +1072,8 @@ void ICACHE_FLASH_ATTR supla_esp_mqtt_prepare_val(char buffer[25],
         offset--;
       }
     }
-    buffer[n + offset - 1] = value % 10 + '0';
-    value /= 10;
+    buffer[n + offset - 1] = uvalue % 10 + '0';
+    uvalue /= 10;
     n--;
   }
 }
